@@ -295,7 +295,8 @@ parseinit(struct scope *s, struct type *t)
 			if (tok.kind == TCOMMA) {
 				next();
 				if (tok.kind != TRBRACE) {
-					if (p.cur == p.sub && p.cur->type->prop & PROPSCALAR)
+					/* the braced object itself has been initialized: a scalar, or an array by a string */
+					if (p.cur == p.sub)
 						error(&tok.loc, "too many initializers for type");
 					break;
 				}
